@@ -95,12 +95,30 @@ pub fn run(ctx: &mut Ctx, replay: Option<&str>) {
                     m.insert("iat".into(), json!({"at": 1700000000, "sources": [{"name": "ntp"}, "gps"], "meta": {"tz": "UTC"}}));
                 }
             }
+            // deep structures: the refusal must not depend on how deep the object sits (alternating objects and arrays)
+            if r.chance(1, 6) {
+                let depth = r.range(9, 60);
+                let mut v = json!({"leaf": "bottom", "n": [1, {"m": true}]});
+                for d in 0..depth {
+                    v = if (d + r.below(2)) % 2 == 0 { json!({"lvl": v}) } else { json!([v]) };
+                }
+                if let Some(m) = bad.claims.as_object_mut() {
+                    m.insert("deep".into(), v);
+                }
+                ctx.count("claims.with_deep_chain");
+            }
             // the control is exactly the same claim set without the planted member
             let control = bad.clone();
             let mut ps = vec![];
             object_paths(&bad.claims, &vec![], &mut ps);
             // never beneath the always-visible iss/iat/exp (they are strings / numbers anyway)
-            let at = ps[r.below(ps.len())].clone();
+            let mut at = ps[r.below(ps.len())].clone();
+            if r.chance(1, 3) {
+                // prefer the deepest object now and then
+                if let Some(deepest) = ps.iter().max_by_key(|p| p.len()) {
+                    at = deepest.clone();
+                }
+            }
             let name = if r.chance(1, 2) { "_sd" } else { "..." };
             let val = match r.below(5) {
                 0 => json!("x"),
@@ -110,7 +128,7 @@ pub fn run(ctx: &mut Ctx, replay: Option<&str>) {
                 _ => gen_leaf(&mut r, false),
             };
             plant(&mut bad.claims, &at, name, val, &mut r);
-            ctx.count(&format!("planted.{}.depth{}", name, at.len().min(4)));
+            ctx.count(&format!("planted.{}.depth{}", name, match at.len() { 0..=4 => at.len().to_string(), 5..=16 => "5-16".to_string(), _ => "17+".to_string() }));
             cases.push((bad, true));
             cases.push((control, false));
         }
